@@ -346,6 +346,17 @@ def fresh_process_describe(objs: list[tuple[str, object]], timeout: int = 900) -
         shutil.rmtree(tmp, ignore_errors=True)
 
 
+def other_round_trips(models: bool = False):
+    """(label, function) of the other routes through `__reduce_ex__`/`__getnewargs__`."""
+    import copy
+
+    out = [(f"pickle protocol {p}", lambda o, p=p: pickle.loads(pickle.dumps(o, protocol=p))) for p in (2, 3, 4, 5)]  # noqa: S301
+    out.append(("copy.deepcopy", copy.deepcopy))
+    if not models:
+        out.append(("copy.copy", copy.copy))
+    return out
+
+
 def lean_roundtrips(exprs: list, ctx, variant=(0, 1)) -> list[tuple]:
     """(expr, wfterm reply, roundtrip reply AST or error) through the Lean model."""
     lines = [f"(variant {variant[0]} {variant[1]})"]
